@@ -135,6 +135,19 @@ INFO = {
     },
 }
 
+INFO["C11"] = {
+    "not_applicable": True,
+    "na_reason": "elf::load (nom parser combinators + Vec/String + copies into the 2 MiB DRAM slice) is outside what CBMC can encode here: with read_elf stubbed and a "
+                 "fully CONCRETE 516-byte layout (only segment bytes, GOT values and the argument string symbolic) symbolic execution alone was still running after 50+ minutes "
+                 "and 10 GB (harness harness/c11.rs kept for the record); symbolic layouts additionally need symbolic-index DRAM writes, which exhaust memory (see C09). "
+                 "No other technique is substituted.",
+}
+INFO["C12"] = {
+    "not_applicable": True,
+    "na_reason": "same code as C11 (elf::load): not encodable within reach - >50 min symbolic execution for one concrete-layout skeleton; the environment layout arithmetic is not "
+                 "separable from the parser without rewriting the repository",
+}
+
 NOTES = (
     "All checks are solver-based (Kani/CBMC on the real source, regenerated from /repo on every run). "
     "Exit 2 means the machinery was inconclusive (timeout, memory, vacuity, non-reproducing counterexample) and is never a pass. "
